@@ -1301,18 +1301,24 @@ func (d *DotGit) RemoveRef(name plumbing.ReferenceName) error {
 		return err
 	}
 
+	// Drop the packed entry first: while the loose file is still there it
+	// shadows the packed one, so neither a reader nor a process interrupted
+	// between the two steps can see a stale packed value come back.
+	if err := d.rewritePackedRefsWithoutRef(name); err != nil {
+		return err
+	}
+
 	path := d.fs.Join(".", name.String())
 	_, err := d.fs.Stat(path)
 	if err == nil {
 		err = d.fs.Remove(path)
-		// Drop down to remove it from the packed refs file, too.
 	}
 
 	if err != nil && !os.IsNotExist(err) {
 		return err
 	}
 
-	return d.rewritePackedRefsWithoutRef(name)
+	return nil
 }
 
 func refsRecvFunc(refs *[]*plumbing.Reference, seen map[plumbing.ReferenceName]bool) refsRecv {
